@@ -13,7 +13,7 @@ def c05(ctx: Ctx):
         "TLC; spec/ParamCodec.tla as the transcription of the OAS 3.0.3 style table (Wire), checked injective per cell and shape by TLC (ASSUME Injective)",
         "harness realiser: wire fragment -> real http.Request (query keys/values percent-encoded, path segment routed by gorillamux, raw Cookie header)",
         "verif hook VerifDecodeStyledParameter (openapi3filter/verif_export.go) to observe the decoded value",
-        "empty-string values, values containing the cell's own delimiter, arrays inside deepObject, and 'not' in parameter schemas are outside the universe (OAS itself is unclear / library documents no support)",
+        "empty-string values, delimiters inside members where the wire has no escape layer (header, cookie, space/pipeDelimited), and 'not' in parameter schemas are outside the universe (OAS itself is unclear / library documents no support); arrays below a deepObject are written with bracketed indexes (p[a][0]=..), the convention of the library and of qs-style encoders",
     ]
     cases = os.path.join(ctx.scratch, "cases.ndjson")
     if ctx.replay:
@@ -36,7 +36,7 @@ def c05(ctx: Ctx):
             ctx.nontrivial.add(casehash(c))
         if rng.random() < 6.0 / 2500:
             ctx.samples.append(dict(c=c, target=o.get("target"), dec=o.get("dec"), verdict=o.get("verdict")))
-    ctx.rule = ("complete product of spec/Gen_C05.tla: 17 legal (in, style, explode) cells x 11 schema shapes (each with an unconstrained and a "
+    ctx.rule = ("complete product of spec/Gen_C05.tla: 17 legal (in, style, explode) cells x 16 schema shapes (each with an unconstrained and a "
                 "constrained schema) x values x required x presence (present / absent / garbage kinds) x decoy parameter whose name extends "
                 "the parameter's; non-trivial = every case except present plain strings")
     ctx.validate("Trace_C05", "Trace_C05.cfg", logp, chunk_lines=400)
